@@ -61,6 +61,9 @@ KEYS = [
     ("dict-name", [["none"], ["none"], ["sub", ["c1"]]]),
     ("dict-letter", [["sub", ["a1", "a2"]], ["none"], ["item", "c2"]]),
     ("dict-letter", [["item", "a2"], ["none"], ["sub", ["c2", "c1"]]]),
+    ("dict-letter", [["item", "a1"], ["none"], ["sub", ["c2", "c1"]]]),
+    ("dict-name", [["item", "a1"], ["none"], ["list", ["c1", "c2"]]]),
+    ("dict-letter", [["sub", ["a2", "a1"]], ["none"], ["item", "c1"]]),
     ("dict-letter", [["sub", ["a2", "a1"]], ["none"], ["sub", ["c2", "c1"]]]),
     ("dict-letter", [["list", ["a2", "a1"]], ["none"], ["none"]]),
     ("tuple", [["list", ["a1", "a2"]], ["none"], ["item", "c1"]]),
